@@ -37,8 +37,22 @@ fn usage() -> ! {
     std::process::exit(2)
 }
 
+/// Signal dispositions are inherited: under `nohup`, or as a background job of a non-interactive shell, SIGHUP /
+/// SIGINT / SIGQUIT arrive here ignored, and every command n2 spawns for us would ignore them too (a command
+/// that kills its shell with such a signal would then simply carry on).  The black-box parts need the defaults.
+fn reset_signals() {
+    unsafe {
+        for s in [libc::SIGHUP, libc::SIGINT, libc::SIGQUIT, libc::SIGTERM, libc::SIGUSR1, libc::SIGUSR2] {
+            libc::signal(s, libc::SIG_DFL);
+        }
+    }
+}
+
 fn main() {
     let args: Vec<String> = std::env::args().collect();
+    if args.len() >= 2 && ["worker", "replay"].contains(&args[1].as_str()) {
+        reset_signals();
+    }
     if args.len() < 2 {
         usage();
     }
